@@ -5,11 +5,11 @@ import ast as _ast
 
 from ..common import all_conds, conds_at, nshow, outer_field, paths
 from ..effects import Effects, fmt_eff
-from ..expr import C, SELF, canon, mapx, norm, show, strip_epochs, walk
+from ..expr import C, SELF, canon, mapx, norm, rowform, show, strip_epochs, walk
 from ..intervals import EQ, GT, path_orderings
 from ..model import AnalysisError
 from ._setops import (BLOOM_CTX, CMS_JOIN_CTX, SECOND, bloom_guard_prefix, cell, combine_rule, is_full_range,
-                      nonzero_rows, similarity_components, _isinstance_atom, mirror_component)
+                      nonzero_rows, operand_indices, cellform, similarity_components, _isinstance_atom, mirror_component)
 
 EXPL = ("Guard-first (the type test is the first decision and raises TypeError, the similarity test is the second and returns "
         "None before any allocation; join raises CountMinSketchError before any store) on every path of the 7 set operations "
@@ -69,22 +69,13 @@ def jaccard_rule(prog, rep, ctx):
         for e in p.events:
             if e.kind == "accum" and e.op == "+":
                 acc.setdefault(e.name, []).append(e)
-        # index domain
-        idxs = set()
-        for e in p.events:
-            if e.kind == "accum":
-                for n in walk(e.addend):
-                    if n[0] == "sub" and outer_field(n[1]) == "_bloom":
-                        idxs.add(strip_epochs(n[2]))
-        for c in p.conds:
-            for n in walk(c.atom):
-                if n[0] == "sub" and outer_field(n[1]) == "_bloom":
-                    idxs.add(strip_epochs(n[2]))
-        if len(idxs) != 1 or not is_full_range(prog, ctx, "_bloom", next(iter(idxs))):
-            rep.bad("C13.jaccard", where, f"range {sorted(nshow(i) for i in idxs)}", "the Jaccard loop does not cover exactly range(bloom_length) with one index", f.where())
+        # index domain (cells named by position: bins[i], zip / enumerate elements, prefix slices)
+        pair = operand_indices(prog, ctx, "_bloom", [e.addend for e in p.events if e.kind == "accum"] + [c.atom for c in p.conds])
+        if pair is None:
+            rep.bad("C13.jaccard", where, "range", "the Jaccard loop does not cover exactly range(bloom_length) with one index", f.where())
             return
-        idx = next(iter(idxs))
-        a, b = cell(SELF, "_bloom", idx), cell(SECOND, "_bloom", idx)
+        a, b = cell(SELF, "_bloom", pair[0]), cell(SECOND, "_bloom", pair[1])
+        rf = cellform
         if not counting:
             def unbyte(n):
                 # (bottom-up) unpack('B', bytes([x]))[0] is x for a byte x, and int(x) is x for an element of the bit array
@@ -98,14 +89,14 @@ def jaccard_rule(prog, rep, ctx):
             def pop(x):
                 return canon(("call", ("m", ("call", ("g", "bin"), (x,), ()), "count"), (C("1"),), ()))
             wantN, wantD = pop(norm(("bin", "&", a, b))), pop(norm(("bin", "|", a, b)))
-            gotN = [canon(mapx(strip_epochs(e.addend), unbyte)) for e in acc.get(N, [])]
-            gotD = [canon(mapx(strip_epochs(e.addend), unbyte)) for e in acc.get(D, [])]
+            gotN = [canon(mapx(rf(e.addend), unbyte)) for e in acc.get(N, [])]
+            gotD = [canon(mapx(rf(e.addend), unbyte)) for e in acc.get(D, [])]
             if gotN != [wantN] or gotD != [wantD]:
                 rep.bad("C13.jaccard", where, f"numerator += {[nshow(x) for x in gotN]}, denominator += {[nshow(x) for x in gotD]}",
                         "the ratio is not popcount(a & b) / popcount(a | b) per byte", f.where())
                 okall = False
         else:
-            rows = nonzero_rows([strip_epochs(c) for c in all_conds(p)], a, b)
+            rows = nonzero_rows([rf(c) for c in all_conds(p)], a, b)
             nN = sum(1 for e in acc.get(N, []) if e.addend == C(1))
             nD = sum(1 for e in acc.get(D, []) if e.addend == C(1))
             if len(acc.get(N, [])) != nN or len(acc.get(D, [])) != nD or nN > 1 or nD > 1:
@@ -136,14 +127,14 @@ def counting_intersection(prog, rep):
         inloop = [c for c in p.conds if c.loops]
         if not inloop and not st:
             continue
-        idxs = {strip_epochs(n[2]) for c in p.conds for n in walk(c.atom) if n[0] == "sub" and outer_field(n[1]) == "_bloom"}
-        idxs |= {strip_epochs(e.index) for e in st}
-        if len(idxs) != 1 or not is_full_range(prog, ctx, "_bloom", next(iter(idxs))):
-            rep.bad("C13.intersection", where, f"range {sorted(nshow(i) for i in idxs)}", "the loop does not cover exactly range(bloom_length) with one index", f.where())
+        rf = cellform
+        pair = operand_indices(prog, ctx, "_bloom", [c.atom for c in p.conds])
+        sidx = {rf(e.index) for e in st}
+        if pair is None or (sidx and sidx != {pair[0]}):
+            rep.bad("C13.intersection", where, "range", "the loop does not cover exactly range(bloom_length) with one index", f.where())
             return
-        idx = next(iter(idxs))
-        a, b = cell(SELF, "_bloom", idx), cell(SECOND, "_bloom", idx)
-        rows = nonzero_rows([strip_epochs(c) for c in all_conds(p)], a, b)
+        a, b = cell(SELF, "_bloom", pair[0]), cell(SECOND, "_bloom", pair[1])
+        rows = nonzero_rows([rf(c) for c in all_conds(p)], a, b)
         want = {r == (True, True) for r in rows}
         if want != {bool(st)}:
             rep.bad("C13.intersection", where, f"rows {sorted(rows)} store={bool(st)}",
@@ -157,7 +148,7 @@ def counting_intersection(prog, rep):
                 rep.bad("C13.intersection", where, f"store into {nshow(e.cont)}", "intersection writes into an operand", e.where())
                 return
             s = norm(("bin", "+", a, b))
-            v = canon(e.value)
+            v = canon(rf(e.value))
             if v not in (canon(s), canon(("call", ("g", "min"), (s, C(2**32 - 1)), ())), canon(("call", ("g", "min"), (a, b), ()))):
                 rep.bad("C13.intersection", where, f"store {nshow(e.value)}", "stored count is not derived from both cells at the same index", e.where())
                 return
